@@ -44,6 +44,14 @@ AcRows   == {Row([a |-> NumV(i), c |-> NumV(j)]) : i \in 0..2, j \in 0..2}
 AcAtoms  == {CmpE(op, A, Col("c")) : op \in CmpOps} \cup
             {CmpE(op, Bin("+", A, LN(1)), Col("c")) : op \in {"=", "<", ">="}}
 
+\* ---- numeric-looking strings: still compared as strings ("10" < "9", "1.0" # "1")
+DigVals  == {<<49, 48>>, <<57>>, <<49, 46, 48>>, <<49>>}
+DigRows  == {Row([s |-> StrV(c)]) : c \in DigVals}
+DigConst == {LS(c) : c \in {<<57>>, <<49, 48>>, <<49>>}}
+DigAtoms == {CmpE(op, S, c) : op \in CmpOps, c \in DigConst} \cup
+            {InE(neg, S, l) : neg \in BOOLEAN, l \in SeqsFromTo(DigConst, 1, 2)} \cup
+            {Between(neg, S, lo, hi) : neg \in BOOLEAN, lo \in DigConst, hi \in DigConst}
+
 Combine(atoms, core) ==
     LET bin == IF Deep THEN atoms ELSE core
     IN  atoms \cup {NotE(x) : x \in atoms}
@@ -54,8 +62,11 @@ Combine(atoms, core) ==
 
 \* ---- IN over a single-column subquery (rooted at the caller's document through <-)
 SubQ(w) == [BaseQ EXCEPT !.sel = <<Item(Col("c"), "")>>, !.from = Table(<<"<-", "u">>, ""), !.where = w]
+\* ... and over the very table the outer query is filtering
+SelfQ(w) == [BaseQ EXCEPT !.sel = <<Item(A, "")>>, !.from = Table(<<"<-", "t">>, ""), !.where = w]
 SubPreds == {InSub(A, SubQ(None)), InSub(A, SubQ(CmpE(">", Col("c"), LN(0)))),
-             NotE(InSub(A, SubQ(None))), AndE(InSub(A, SubQ(None)), CmpE("<", A, LN(2)))}
+             NotE(InSub(A, SubQ(None))), AndE(InSub(A, SubQ(None)), CmpE("<", A, LN(2))),
+             InSub(A, SelfQ(CmpE(">", A, LN(0)))), NotE(InSub(A, SelfQ(CmpE("<", A, LN(2)))))}
 URows == {Row([c |-> NumV(i)]) : i \in 0..2}
 
 Families ==
@@ -63,6 +74,7 @@ Families ==
      [name |-> "str",  rows |-> StrRows, preds |-> Combine(StrAtoms, StrCore), extra |-> {<<>>}],
      [name |-> "bn",   rows |-> BnRows,  preds |-> Combine(BnAtoms, BnAtoms),  extra |-> {<<>>}],
      [name |-> "ac",   rows |-> AcRows,  preds |-> Combine(AcAtoms, AcAtoms),  extra |-> {<<>>}],
+     [name |-> "dig",  rows |-> DigRows, preds |-> DigAtoms \cup {NotE(x) : x \in DigAtoms}, extra |-> {<<>>}],
      [name |-> "sub",  rows |-> NumRows, preds |-> SubPreds, extra |-> SeqsUpTo(URows, 2)]}
 
 Init ==
@@ -110,5 +122,7 @@ DeMorgan ==
             [] OTHER -> TRUE
 
 Export ==
-    Done => PrintT(ToJson([q |-> cs.q, doc |-> cs.doc, fam |-> cs.fam, hist |-> hist, res |-> res]))
+    Done => PrintT(ToJson([q |-> cs.q, doc |-> cs.doc, fam |-> cs.fam, hist |-> hist, res |-> res,
+                           \* what the negated predicate keeps: replayed on the same document object
+                           neg |-> Kept(NotE(P))]))
 =============================================================================
